@@ -1,5 +1,5 @@
 (* C16 — parts of the full statement that are false of the faithful model. *)
-From Coq Require Import String List Bool ZArith.
+From Coq Require Import String List Bool ZArith Permutation.
 Import ListNotations.
 Require Import V.Lib.PyStr V.Lib.JTree V.Memo.Model.
 Open Scope string_scope.
@@ -37,8 +37,8 @@ Theorem C16_blueprint_prefix_refuted :
 Proof. vm_compute. split; reflexivity. Qed.
 Print Assumptions C16_blueprint_prefix_refuted.
 
-(* A folder of a producer consumed through :copy / :link (never named on the command line) leaves no
-   trace in either info: the consumer's hash does not follow its producer. *)
+(* F16d (open): a folder of a producer consumed through :copy / :link (never named on the command line) leaves no
+   trace in either info: the consumer's hash follows neither its producer nor the files of that folder. *)
 Theorem C16_folder_copy_refuted :
   let c := {| c_name := "w"; c_stage := 0; c_location := "instance"; c_exe := "ls"; c_args := [TLit "-l"];
               c_refs := [ {| d_key := "stage0.gen:copy"; d_text := "gen:copy"; d_location := "stages/stage0/gen"; d_mtime := 0;
@@ -47,3 +47,45 @@ Theorem C16_folder_copy_refuted :
   forall md5 fuzzy ph ph', info_of md5 fuzzy ph c = info_of md5 fuzzy ph' c /\ info_of md5 fuzzy ph c <> None.
 Proof. intros c md5 fuzzy ph ph'. destruct fuzzy; vm_compute; split; congruence. Qed.
 Print Assumptions C16_folder_copy_refuted.
+
+(* Without the shape of the entries ([wf_files]) the concatenation the hash sees does not determine the file
+   list: the hypothesis of C16_files_determined / C16_exactly_when is necessary.  (The code only produces
+   well-formed entries — C16_files_wellformed — so this is not a finding.) *)
+Theorem C16_files_concat_refuted :
+  let i  := {| i_files := ["ab"; "c"]; i_exe := "cat"; i_args := "-n"; i_image := None |} in
+  let i' := {| i_files := ["a"; "bc"]; i_exe := "cat"; i_args := "-n"; i_image := None |} in
+  unambiguousb i = true /\ unambiguousb i' = true /\ serialise i = serialise i' /\
+  (forall md5, hash_info md5 i = hash_info md5 i') /\ ~ Permutation (i_files i) (i_files i') /\
+  wf_files (i_files i) = false.
+Proof.
+  cbv zeta. repeat split; try (vm_compute; reflexivity).
+  intros P. apply (Permutation_in "ab") in P; [|left; reflexivity].
+  cbn in P. destruct P as [P|[P|[]]]; discriminate P.
+Qed.
+Print Assumptions C16_files_concat_refuted.
+
+(* F16c (open): \b<reference>\b does not match a reference to an absolute path ('/' is not a word character:
+   no boundary after a blank, after '=' or at the start) nor a reference directly followed by a word character.
+   The reference stays as written: the token model (what the property asks for) gives two components that read
+   equal contents at two absolute paths the same info, the code gives them different arguments. *)
+Definition abs_comp (path : string) : comp :=
+  {| c_name := "A"; c_stage := 0; c_location := "instance"; c_exe := "cat"; c_args := [TLit "-n"; TLit " "; TRef 0];
+     c_refs := [ {| d_key := path ++ ":ref"; d_text := path ++ ":ref"; d_location := path; d_mtime := 0; d_prod := None;
+                    d_fileref := ""; d_method := "ref"; d_state := FFile "AAA" |} ];
+     c_backend := BLocal |}.
+Theorem C16_word_boundary_refuted :
+  resub "/dir/a.txt:ref" "file:H:ref" "cat /dir/a.txt:ref --in=/dir/a.txt:ref" = "cat /dir/a.txt:ref --in=/dir/a.txt:ref" /\
+  resub "/dir/a.txt:ref" "file:H:ref" "/dir/a.txt:ref" = "/dir/a.txt:ref" /\
+  resub "gen/out.txt:ref" "file:H:ref" "gen/out.txt:ref_1 gen/out.txt:ref" = "gen/out.txt:ref_1 file:H:ref" /\
+  let md5 := fun s => "<" ++ s ++ ">" in
+  forall fuzzy ph,
+    info_of md5 fuzzy ph (abs_comp "/dir/a.txt") = info_of md5 fuzzy ph (abs_comp "/dir/b.txt") /\
+    option_map i_args (info_of md5 fuzzy ph (abs_comp "/dir/a.txt")) = Some "-n file:<AAA>:ref" /\
+    option_map i_args (info_of_chars md5 fuzzy ph ["/dir/a.txt:ref"] [0%nat] (abs_comp "/dir/a.txt")) = Some "-n /dir/a.txt:ref" /\
+    option_map i_args (info_of_chars md5 fuzzy ph ["/dir/b.txt:ref"] [0%nat] (abs_comp "/dir/b.txt")) = Some "-n /dir/b.txt:ref" /\
+    option_map i_files (info_of_chars md5 fuzzy ph ["/dir/a.txt:ref"] [0%nat] (abs_comp "/dir/a.txt")) =
+    option_map i_files (info_of_chars md5 fuzzy ph ["/dir/b.txt:ref"] [0%nat] (abs_comp "/dir/b.txt")).
+Proof.
+  repeat split; try (vm_compute; reflexivity); destruct fuzzy; vm_compute; reflexivity.
+Qed.
+Print Assumptions C16_word_boundary_refuted.
